@@ -3,5 +3,6 @@ CONSTANTS
   MaxMembers = 2
   MaxGhosts = 2
   AllItems = TRUE
+  TNs = {FALSE}
 INVARIANTS Emit NoClash
 CHECK_DEADLOCK FALSE
